@@ -32,6 +32,14 @@ Variations (labels as they appear in `Variant.applied` / `label(case)`):
   short_block / zero_block  (repack only) a block shorter than the natural size
                   / of length zero: the values that do not fit become zero
   ld_ylen:<mode>  (repack, LD) slice_y_length chosen freely inside the slice
+  mixed_params    the first sequence is assembled from the picture/fragment units of 2-3
+                  *sibling* recipes (configs.sibling: same video format, profile and
+                  sequence header; slices_x/y, dwt_depth, dwt_depth_ho, wavelet, quantisation
+                  matrix or fragment size differ), each encoded separately by the real
+                  encoder; the first one's sequence header is kept (major_version AUTO),
+                  the pictures are concatenated in random order with consecutive picture
+                  numbers, so transform parameters change from picture to picture
+                  (stats "mixed:<transition>" count what followed what)
 
 The generator never decides conformance: the checks run the validator and
 treat a rejected variant as a generator bug (reported, not hidden).
@@ -58,6 +66,7 @@ VAR_DEFAULTS = dict(
     dangle=False,     # repack only
     short=False,      # repack only: short / zero-length blocks
     ld_ylen="natural",  # repack, LD: "natural" | "random" | "zero" | "all"
+    mixed=None,       # None | [sibling recipe, ...]: pictures of these recipes are mixed into the first sequence
 )
 
 
@@ -124,6 +133,8 @@ def label(case):
         out.append("npo_zero")
     if len(_recipes(case)) > 1:
         out.append("multi_seq")
+    if var["mixed"]:
+        out.append("mixed_params")
     if var["prefix"]:
         out.append("prefix_bytes")
     if var["scaler"]:
@@ -538,6 +549,93 @@ def vary_units(seq, var, rng, out):
 
 
 # --------------------------------------------------------------------------
+# pictures of sibling recipes in one sequence
+# --------------------------------------------------------------------------
+MIXED_ATTRS = ("sx", "sy", "d", "dh", "wi", "qm", "fsc")
+
+
+def unit_groups(seq):
+    """data units of a sequence grouped per coded picture: [[picture unit] | [first fragment, fragment, ...], ...]"""
+    groups = []
+    for du in seq["data_units"]:
+        if "picture_parse" in du:
+            groups.append([du])
+        elif "fragment_parse" in du:
+            if du["fragment_parse"]["fragment_header"].get("fragment_slice_count", 0) == 0:
+                groups.append([du])
+            else:
+                groups[-1].append(du)
+    return groups
+
+
+def transitions(ra, rb):
+    """labels describing how the transform parameters change from a picture of recipe ra to the next of recipe rb"""
+    out = []
+    fa, fb = bool(ra["fsc"]), bool(rb["fsc"])
+    out.append({(False, True): "plain->frag", (True, False): "frag->plain", (True, True): "frag->frag",
+                (False, False): "plain->plain"}[(fa, fb)])
+    na, nb = ra["sx"] * ra["sy"], rb["sx"] * rb["sy"]
+    geom = (ra["sx"], ra["sy"], ra["d"], ra["dh"]) != (rb["sx"], rb["sy"], rb["d"], rb["dh"])
+    if (ra["sx"], ra["sy"]) != (rb["sx"], rb["sy"]):
+        out.append("slices_up" if nb > na else "slices_down" if nb < na else "slices_reshaped")
+    if ra["dh"] != rb["dh"]:
+        out.append("dh_up" if rb["dh"] > ra["dh"] else "dh_down")
+        if (ra["dh"], rb["dh"]) in ((1, 0), (0, 1)) and ra["d"] == rb["d"]:
+            out.append("dh%d->%d_same_d" % (ra["dh"], rb["dh"]))
+    if ra["d"] != rb["d"]:
+        out.append("d_up" if rb["d"] > ra["d"] else "d_down")
+    if (ra["wi"], ra["wih"]) != (rb["wi"], rb["wih"]):
+        out.append("wavelet_change")
+    if ra.get("qm") != rb.get("qm"):
+        out.append("matrix_change")
+    if geom:
+        out.append("geometry_change_into_" + ("frag" if fb else "plain"))
+        if fa != fb:
+            out.append("geometry_change+" + ("plain->frag" if fb else "frag->plain"))
+    return out
+
+
+def mix_sequences(encoded, rng, out):
+    """Move the picture units of every further member into the first member's sequence, in random order, and number
+    the pictures consecutively.  encoded = [(recipe, cf, pics, seq), ...] -> list of the recipe of each picture in
+    stream order.  The first sequence header (major_version left to autofill, which takes the maximum need of the
+    whole sequence) and end of sequence are kept."""
+    r0, _, _, seq0 = encoded[0]
+    units = seq0["data_units"]
+    head, tail = units[0], units[-1]
+    if "sequence_header" not in head or int(tail["parse_info"]["parse_code"]) != 0x10:
+        raise GeneratorBug("encoder output does not start with a sequence header / end with end_of_sequence")
+    pictures = []
+    for r, _, _, seq in encoded:
+        for grp in unit_groups(seq):
+            pictures.append((r, grp))
+    rng.shuffle(pictures)
+    start = r0["pics"]["nums"] if r0["pics"]["nums"] is not None else 0
+    new_units = [head]
+    for n, (r, grp) in enumerate(pictures):
+        num = (start + n) & 0xFFFFFFFF
+        for du in grp:
+            if "picture_parse" in du:
+                du["picture_parse"]["picture_header"]["picture_number"] = num
+            else:
+                du["fragment_parse"]["fragment_header"]["picture_number"] = num
+        new_units.extend(grp)
+    new_units.append(tail)
+    seq0["data_units"] = new_units
+    recipes = [r for r, _ in pictures]
+    if any(r is not recipes[0] for r in recipes):
+        out.applied.add("mixed_params")
+    for ra, rb in zip(recipes, recipes[1:]):
+        if ra is rb:
+            continue
+        out.bump("mixed:transitions")
+        for t in transitions(ra, rb):
+            out.bump("mixed:" + t)
+    out.bump("mixed:members", len(encoded))
+    return recipes
+
+
+# --------------------------------------------------------------------------
 # build
 # --------------------------------------------------------------------------
 def build(case, serialise=True):
@@ -551,19 +649,31 @@ def build(case, serialise=True):
     recipes = _recipes(case)
     for i, recipe in enumerate(recipes):
         rng = random.Random("streams/%s/%d" % (case.get("vseed", "0"), i))
-        try:
-            cf, pics, seq = vc2util.encode(recipe)
-        except UnsatisfiableCodecFeaturesError:
-            out.rejected_recipes += 1
+        members = [recipe] + (list(var["mixed"]) if (i == 0 and var["mixed"]) else [])
+        encoded = []
+        for r in members:
+            try:
+                cf, pics, seq = vc2util.encode(r)
+            except UnsatisfiableCodecFeaturesError:
+                out.rejected_recipes += 1
+                continue
+            for g in picture_groups(seq):
+                if g["kind"] == "hq":
+                    vary_hq_picture(g, var, rng, out)
+                elif g["kind"] == "ld":
+                    vary_ld_picture(g, var, rng, out)
+            encoded.append((r, cf, pics, seq))
+        if not encoded:
             continue
-        for g in picture_groups(seq):
-            if g["kind"] == "hq":
-                vary_hq_picture(g, var, rng, out)
-            elif g["kind"] == "ld":
-                vary_ld_picture(g, var, rng, out)
+        r0, cf, pics, seq = encoded[0]
+        n_pictures = len(pics)
+        picture_recipes = [r0] * n_pictures
+        if len(encoded) > 1:
+            picture_recipes = mix_sequences(encoded, rng, out)
+            n_pictures = len(picture_recipes)
         vary_units(seq, var, rng, out)
         out.sequences.append(seq)
-        out.seqs.append({"recipe": recipe, "n_pictures": len(pics), "cf": cf})
+        out.seqs.append({"recipe": r0, "n_pictures": n_pictures, "cf": cf, "picture_recipes": picture_recipes})
     if not out.sequences:
         raise Rejected()
     if len(out.sequences) > 1:
@@ -581,9 +691,11 @@ def build_variant(case):
 # --------------------------------------------------------------------------
 # convenience for checks: recipes + variations in one draw
 # --------------------------------------------------------------------------
-def random_case(rng, emphasis=None, p_multi=0.15, space=None):
+def random_case(rng, emphasis=None, p_multi=0.15, space=None, p_mixed=0.3):
     """Draw 1-2 configuration recipes (small pictures, few pictures per sequence so
-    that a case costs ~0.1 s) and the variations to apply to them."""
+    that a case costs ~0.1 s) and the variations to apply to them.  With probability
+    p_mixed the first sequence also gets the pictures of 1-2 sibling recipes (chained
+    or star-shaped single-attribute changes, so two pictures may differ in two attributes)."""
     from vlib.gen import configs
 
     n = 2 if rng.random() < p_multi else 1
@@ -611,4 +723,20 @@ def random_case(rng, emphasis=None, p_multi=0.15, space=None):
             # the content is replaced anyway; cheap content keeps the encoder fast
             r["pics"]["class"] = rng.choice(["zero", "mid", "noise"])
         recipes.append(r)
-    return make_case(rng, recipes, emphasis=emphasis)
+    force = None
+    if rng.random() < p_mixed:
+        base = recipes[0]
+        base["pics"]["n"] = 2 if base["pcm"] == 1 else 1
+        sibs = []
+        prev = base
+        for _ in range(rng.choice([1, 2, 2])):
+            src = prev if rng.random() < 0.6 else base
+            if rng.random() < 0.3:
+                # fragmentation and geometry both differ: plain <-> fragmented with other slice counts / depths
+                sib = configs.sibling(rng, configs.sibling(rng, src, "fsc"), rng.choice(["sx", "sy", "d", "dh"]))
+            else:
+                sib = configs.sibling(rng, src, rng.choice(MIXED_ATTRS))
+            sibs.append(sib)
+            prev = sib
+        force = {"mixed": sibs}
+    return make_case(rng, recipes, emphasis=emphasis, force=force)
